@@ -8,6 +8,7 @@ import (
 	"math/rand"
 	"os"
 	"path/filepath"
+	"sort"
 	"strings"
 )
 
@@ -273,6 +274,8 @@ func (osObj *VirtualOS) Environ() []string {
 	for k, v := range osObj.env {
 		result = append(result, k+"="+v)
 	}
+	// The environment is kept in a map: return it in a defined order
+	sort.Strings(result)
 	return result
 }
 
